@@ -126,7 +126,7 @@ func c15(r *report.Run) {
 		rawOrder++
 		type res struct{ mode, norm string }
 		var oks []res
-		for vi := 0; vi < 3; vi++ {
+		for vi := 0; vi < 4; vi++ {
 			oks = oks[:0]
 			for _, m := range c15Modes {
 				if strings.Contains(src, "X") && (m.Env == "map" || m.Env == "mapundef") {
@@ -134,17 +134,17 @@ func c15(r *report.Run) {
 				}
 				mkEnv := func() *henv.Env {
 					e := henv.MakeFull(henv.Val{})
-					e.I, e.J = []int{1, 2, -1}[vi], []int{2, -2, 3}[vi]
-					e.I8, e.U8, e.I64, e.U, e.F32, e.F = []int8{50, -128, 1}[vi], []uint8{200, 255, 1}[vi], []int64{250, 1 << 40, 1}[vi], []uint{250, 0, 1}[vi], []float32{250, 0.5, 1}[vi], []float64{250, 0.5, 1}[vi]
-					e.X, e.MI, e.B = []interface{}{int8(50), 250.0, nil}[vi], []henv.MyInt{250, 0, 1}[vi], vi != 1
+					e.I, e.J = []int{1, 2, -1, 250}[vi], []int{2, -2, 3, 1}[vi]
+					e.I8, e.U8, e.I64, e.U, e.F32, e.F = []int8{50, -128, 1, 2}[vi], []uint8{200, 255, 1, 2}[vi], []int64{250, 1 << 40, 1, 2}[vi], []uint{250, 0, 1, 2}[vi], []float32{250, 0.5, 1, 2}[vi], []float64{250, 0.5, 1, 2}[vi]
+					e.X, e.MI, e.B = []interface{}{int8(50), 250.0, nil, 1.0}[vi], []henv.MyInt{250, 0, 1, 2}[vi], vi != 1
 					if vi == 2 {
 						e.P, e.O = nil, nil
 					} else {
-						pi, ps := []int{250, 7}[vi], []string{"a", "b"}[vi]
+						pi, ps := []int{250, 7, 0, 250}[vi], []string{"a", "b", "", "a"}[vi]
 						e.PI, e.PS = &pi, &ps
 					}
 					if strings.Contains(src, "X") {
-						e.X = []interface{}{249.5, 250, int8(50)}[vi]
+						e.X = []interface{}{249.5, 250, int8(50), 250.0}[vi]
 					}
 					return e
 				}
